@@ -440,8 +440,10 @@ class NumpyConverter(object):
     @staticmethod
     def write_headers(header_info, out_filehandle):
         for header_array in header_info.headers_dict.values():
+            # Header arrays are stored as 32-bit integers, whatever integer type the caller supplied
+            header_bytes = header_array.astype(np.int32).tobytes()
             # Pad to 512-bytes for page blobs
-            out_filehandle.write(header_array.tobytes() + bytes(512-len(header_array.tobytes()) % 512))
+            out_filehandle.write(header_bytes + bytes(512-len(header_bytes) % 512))
 
     @staticmethod
     def write_hash(hash, out_filehandle):
